@@ -397,6 +397,10 @@ def labels_roundtrip_for_every_header(ctx, binary, wide):
 # DIF3D
 
 
+_WORDS = ["CCC", "", "ABCDEFGH", "c\u0153ur", "n\u00b012\u00b5m", "\u2192\u20ac\u00e9"]
+assert all(len(w.encode("utf-8")) <= 8 for w in _WORDS) and len(_WORDS[-1].encode("utf-8")) == 8
+
+
 def _dif3d_write(d, binary):
     return _run_container(dif3d.Dif3dStream, d, _mode(True, binary)).getvalue()
 
@@ -408,15 +412,21 @@ def _dif3d_read(raw, binary):
 
 @harness("C09", bounds="DIF3D control file: number of overrelaxation factors NUMORP 0..3 and of coarse-mesh rebalance "
                        "zones NCMRZS 0..3 (they decide whether the 4D and 5D records exist and how long they are), "
-                       "all combinations; binary and ASCII", stubs=STUBS, max_paths=500,
+                       "all combinations; one title word chosen symbolically among texts that fit their 8-byte "
+                       "field (ASCII shorter than / as wide as the field, empty, 2- and 3-byte UTF-8 characters); "
+                       "binary and ASCII", stubs=STUBS, max_paths=500,
          instances={"quick": [dict(binary=True), dict(binary=False)]})
 def dif3d_roundtrip_for_every_header(ctx, binary):
     numorp, ncmrzs = int(ctx.int("NUMORP", 0, 3)), int(ctx.int("NCMRZS", 0, 3))
+    # one word of the title (fields of 8 bytes): texts that fit the field, ASCII or not (UTF-8 encodings of 2 and 3
+    # bytes per character, up to exactly 8 bytes), and the empty word
+    word = ctx.choice("titleWord", _WORDS)
     d = dif3d.Dif3dData()
     md = d.metadata
     md["HNAME"], md["HUSE1"], md["HUSE2"], md["VERSION"] = "DIF3D", "verif", "x", 1
     for i in range(dif3d.TITLE_RANGE):
         md["TITLE%d" % i] = _NAMES[i]
+    md["TITLE2"] = word
     md["MAXSIZ"], md["MAXBLK"], md["IPRINT"] = 10000, 2000, 3
     written = dict(md.items())
     for i, k in enumerate(dif3d.FILE_SPEC_2D_PARAMS):
@@ -963,6 +973,12 @@ KNOWN_DEFECT_pmatrx_activation_xs_records = False  # repaired in /repo (fix: a26
 # read nuclide: KeyError (reported as OSError).  A library with maxScatteringOrder >= 3 is written but cannot be read
 # back.  With the flag True the harness keeps the order <= 2.
 KNOWN_DEFECT_pmatrx_order3_production_unreadable = False  # recorded in known_findings.jsonl
+# IORecord.rwBool keeps a value only if isinstance(val, bool): a flag held as numpy.bool_(True) (what a comparison or
+# reduction of numpy data yields, e.g. hasGammaHeating = heating.any()) is written as 0, so the record it announces is
+# still written but never read (the file is misread from there on).  With the flag True the flags of the container are
+# Python bools only; see KNOWN_DEFECT_rwBool_drops_numpy_bool in C09_cccc.py (record-level obligation, reproduction).
+KNOWN_DEFECT_pmatrx_numpy_bool_flags_written_false = True
+_FLAG_TYPES = ["bool"] + ([] if KNOWN_DEFECT_pmatrx_numpy_bool_flags_written_false else ["numpy.bool_"])
 
 
 def _pmatrx_write(lib, binary):
@@ -998,11 +1014,14 @@ def _production(nuc, order):
 @harness("C09", bounds="PMATRX: neutron groups 1..2, gamma groups 1..2, dose-conversion record present or not; first "
                        "nuclide: heating/damage record, gamma-heating record present or not, production matrices of "
                        "order 0..3, activation cross-section records 0..1: all combinations; second nuclide fixed; "
-                       "binary and ASCII", stubs=STUBS, max_paths=2000,
+                       "the flags held as Python bools (as numpy.bool_ too once the recorded rwBool defect is "
+                       "repaired); binary and ASCII", stubs=STUBS, max_paths=2000,
          instances={"quick": [dict(binary=True), dict(binary=False)]})
 def pmatrx_roundtrip_for_every_header(ctx, binary):
     nn, ngam = int(ctx.int("numNeutronGroups", 1, 2)), int(ctx.int("numGammaGroups", 1, 2))
     dose, heat, gheat = bool(ctx.bool("hasDose")), bool(ctx.bool("hasHeating")), bool(ctx.bool("hasGammaHeating"))
+    if ctx.choice("flagType", _FLAG_TYPES) == "numpy.bool_":
+        dose, heat, gheat = np.bool_(dose), np.bool_(heat), np.bool_(gheat)
     # see the two KNOWN_DEFECT_pmatrx_* flags
     order = int(ctx.int("maxScatteringOrder", 0, 2 if KNOWN_DEFECT_pmatrx_order3_production_unreadable else 3))
     nxs = int(ctx.int("numberNeutronXS", 0, 0 if KNOWN_DEFECT_pmatrx_activation_xs_records else 1))
